@@ -59,9 +59,12 @@ func TestVerifBoundedBoolean(t *testing.T) {
 						in2[i] = append(Path64{}, clip[i]...)
 					}
 				}
-				sol := BooleanOpPaths64(ct, in1, in2, fr)
-				bad := ""
+				sol, pan := vcBool(ct, in1, in2, fr)
+				bad := pan
 				for _, s := range far {
+					if bad != "" {
+						break
+					}
 					want := vcOp(ct, vcFill(fr, vcWindAll(s, subj)), vcFill(fr, vcWindAll(s, clip)))
 					got := vcWindAll(s, sol) != 0
 					if got != want {
